@@ -120,6 +120,11 @@ func SetupNode(custom *config.Custom, store storage.Store, cache *ristretto.Cach
 		}
 	}
 
+	err = node.repairLastConsensusSnapshot()
+	if err != nil {
+		return nil, fmt.Errorf("repairLastConsensusSnapshot() => %v", err)
+	}
+
 	err = node.LoadAllChainsAndGraphTimestamp(node.persistStore, node.networkId)
 	if err != nil {
 		return nil, fmt.Errorf("LoadAllChainsAndGraphTimestamp() => %v", err)
@@ -131,6 +136,72 @@ func SetupNode(custom *config.Custom, store storage.Store, cache *ristretto.Cach
 	logger.Printf("Node Id:\t%s\n", node.IdForNetwork.String())
 	logger.Printf("Topology:\t%d\n", node.TopoCounter.seq)
 	return node, nil
+}
+
+// repairLastConsensusSnapshot restores the consensus marker when the process
+// stopped after a consensus snapshot was written but before its separate
+// WriteConsensusSnapshot, and snapshots of other chains were written in
+// between, so that it is no longer the last topology snapshot. The latest
+// membership, mint and custodian records are written together with that
+// snapshot, thus the snapshot can be found from them.
+func (node *Node) repairLastConsensusSnapshot() error {
+	last, err := node.persistStore.ReadLastConsensusSnapshot()
+	if err != nil || last == nil || len(last.Transactions) != 1 {
+		return err
+	}
+
+	var candidates []crypto.Hash
+	nodes := node.persistStore.ReadAllNodes(^uint64(0), true)
+	if l := len(nodes); l > 0 {
+		candidates = append(candidates, nodes[l-1].Transaction)
+	}
+	mint, err := node.persistStore.ReadLastMintDistribution(^uint64(0))
+	if err != nil {
+		return err
+	}
+	if mint != nil {
+		candidates = append(candidates, mint.Transaction)
+	}
+	curs, err := node.persistStore.ListCustodianUpdates()
+	if err != nil {
+		return err
+	}
+	if l := len(curs); l > 0 {
+		candidates = append(candidates, curs[l-1].Transaction)
+	}
+
+	var snap *common.Snapshot
+	var tx *common.VersionedTransaction
+	for _, h := range candidates {
+		ver, final, err := node.persistStore.ReadTransaction(h)
+		if err != nil {
+			return err
+		}
+		if ver == nil || final == "" {
+			continue
+		}
+		if len(ver.References) < 1 || ver.References[0] != last.Transactions[0] {
+			continue
+		}
+		sh, err := crypto.HashFromString(final)
+		if err != nil {
+			return err
+		}
+		s, err := node.persistStore.ReadSnapshot(sh)
+		if err != nil {
+			return err
+		}
+		if s == nil || len(s.Transactions) != 1 || s.Timestamp <= last.Timestamp {
+			continue
+		}
+		if snap == nil || s.Timestamp > snap.Timestamp {
+			snap, tx = s.Snapshot, ver
+		}
+	}
+	if snap == nil {
+		return nil
+	}
+	return node.reloadConsensusState(snap, tx)
 }
 
 func (node *Node) loadNodeConfig() {
